@@ -327,7 +327,7 @@ def rule_ag1(ctx: Ctx) -> RuleResult:
                     for x in ast.walk(s):
                         if isinstance(x, ast.Assign) and any(isinstance(y, ast.Name) and y.id in names for y in ast.walk(x.value)):
                             names |= {tg.id for tg in x.targets if isinstance(tg, ast.Name)}
-                rets = [x for s in stmts for x in ast.walk(s) if isinstance(x, ast.Return)]
+                rets = [x for s in stmts for x in ast.walk(s) if isinstance(x, ast.Return) and m.enclosing_function(x) is encl]
                 for rt in rets:
                     uses = rt.value is not None and any(isinstance(y, ast.Name) and y.id in names for y in ast.walk(rt.value))
                     r.ob(uses, lambda rt=rt, which=which, subj=subj: Finding(
